@@ -317,7 +317,7 @@ func init() {
 			r.Try(func() { ruleInitializersOnce(w, r, "R02.6") })
 			r.Try(func() { ruleEntryPointsStoreNothing(w, r, "R02.7") })
 			sub := NewReport(r.Prop, r.Tier, w)
-			for _, id := range []string{"R07.1", "R07.2", "R07.3", "R07.4", "R07.5", "R07.6"} {
+			for _, id := range []string{"R07.1", "R07.2", "R07.3", "R07.4", "R07.5", "R07.6", "R07.7", "R07.8"} {
 				sub.Rule(id, 0, "")
 			}
 			r.Try(func() { checkC07(w, sub) })
@@ -386,6 +386,8 @@ func init() {
 			r.Try(func() { ruleOptionalOnly(w, r, "R04.5") })
 			r.Try(func() { ruleKeyLiterals(w, r, "R04.7") })
 			r.Try(func() { ruleGraphSeesAllDependencies(w, r, "R04.8") })
+			r.Rule("R04.14", 2, "name and group tags are taken verbatim, like the registration options")
+			r.Try(func() { ruleTagValuesVerbatim(w, r, "R04.14") })
 			r.Rule("R04.12", 1, "an interface alias (As) is the base registration under another type: the alias descriptor takes IsInstance and Instance from the base")
 			r.Try(func() { ruleAliasIsBase(w, r, "R04.12") })
 			r.Rule("R04.13", 1, "the outputs of one constructor call are told apart by type and key (an unnamed result field is not confused with a named sibling of the same type)")
@@ -413,6 +415,8 @@ func init() {
 			r.Try(func() { ruleProviderOnlyFromBuild(w, r, "R05.2") })
 			r.Try(func() { ruleSearchComplete(w, r, "R05.3") })
 			r.Try(func() { ruleGroupLinkGraph(w, r, "R05.4") })
+			r.Rule("R05.13", 2, "a cycle is reported as a cycle: the checked cycle detection precedes lifetime and presence validation")
+			r.Try(func() { ruleCycleCheckFirst(w, r, "R05.13") })
 			r.Rule("R05.12", 4, "the cycle check never answers from a stale cache: every graph change (a rejected, rolled-back add included) invalidates it")
 			r.Rule("R05.12c", 1, "the sorted-order cache is written only together with clearing its dirty flag")
 			r.Try(func() { checkGraphCaches(w, r, "R05.12", "", "R05.12c") })
